@@ -98,6 +98,7 @@ type cworld struct {
 	ore    *orefafs.OrefaFS
 	ids    map[*vsync.RWMutex]int
 	next   int
+	isDir  map[int]bool
 	known  []any // MemFS nodes seen so far, in id order (extra roots of the dump: detached nodes keep their subtrees)
 }
 
@@ -105,7 +106,7 @@ type cworld struct {
 var concSetup = []string{"mkdir /a", "mkdir /a/d", "create /a/f", "mkdir /b", "create /b/g"}
 
 func newCWorld(fsname string) *cworld {
-	w := &cworld{fsname: fsname, ids: map[*vsync.RWMutex]int{}}
+	w := &cworld{fsname: fsname, ids: map[*vsync.RWMutex]int{}, isDir: map[int]bool{}}
 	sys := []avfs.DirInfo{{Path: "/tmp", Perm: 0o777}}
 	var base avfs.VFS
 	switch fsname {
@@ -148,6 +149,7 @@ func (w *cworld) refresh() {
 		for _, n := range nodes {
 			if _, ok := w.ids[n.Mu]; !ok {
 				w.ids[n.Mu] = w.next
+				w.isDir[w.next] = n.Kind == 'D'
 				w.next++
 				w.known = append(w.known, n.Ref)
 			}
@@ -638,8 +640,8 @@ var concTemplates = []string{"mkdir", "create", "remove", "rename", "link", "sym
 var concInst = map[string][]string{
 	"mkdir":      {"mkdir /a/x", "mkdir /a/d/x", "mkdir /b/x"},
 	"create":     {"create /a/x", "create /a/d/x", "create /b/x"},
-	"remove":     {"remove /a/f", "remove /a/d", "remove /a/x", "remove /b/g"},
-	"rename":     {"rename /a/f /b/x", "rename /b/g /a/x", "rename /a/f /a/x", "rename /a/d /b/x", "rename /b/g /a/f", "rename /a/d /a/x"},
+	"remove":     {"remove /a/f", "remove /a/d", "remove /a/x", "remove /b/g", "remove /a"},
+	"rename":     {"rename /a/f /b/x", "rename /b/g /a/x", "rename /a/f /a/x", "rename /a/d /b/x", "rename /b/g /a/f", "rename /a/d /a/x", "rename /a/f /x"},
 	"link":       {"link /a/f /a/x", "link /a/f /b/x", "link /b/g /a/x", "link /a/f /a/d/x"},
 	"symlink":    {"symlink /a /b/x", "symlink /a/f /a/x", "symlink /b /a/d/x"},
 	"mkdirall":   {"mkdirall /a/x/y", "mkdirall /a/d/x/y", "mkdirall /b/x"},
@@ -840,6 +842,9 @@ func (cr *concRun) check(p cprog, e *cexec, emit bool) {
 		if panicked {
 			cr.stats["panics"]++
 			cr.note("panic", p, e, nil)
+		} else if tempDuplicate(p, e) {
+			cr.stats["temp_name_handed_out_twice"]++
+			cr.note("tempdup", p, e, nil)
 		} else if linearization(e, seqs) == nil {
 			cr.stats["non_linearizable"]++
 			cr.note("nonlin", p, e, seqs)
@@ -852,23 +857,79 @@ func (cr *concRun) check(p cprog, e *cexec, emit bool) {
 	}
 }
 
-// ambiguousRemoveAll: the recursion of RemoveAll ranges over a Go map, so with two or more
-// sub-directories its lock order is not determined; such executions are explored and checked
-// but not compared with the model (which walks the entries in name order).
+// ambiguousRemoveAll: the recursion of RemoveAll ranges over a Go map, so when a directory it
+// empties has two or more entries its lock order is not determined; such executions are explored
+// and judged by the oracle but not compared with the model (which takes the entries in name order).
+// Criterion: some directory locked by the recursion (every W lock after the first two of the call:
+// parent, target) ... is decided on the trace: the recursion deletes every entry under its own lock,
+// so a directory with k entries shows k distinct locks between its own Lock and its delete Lock.
 func ambiguousRemoveAll(p cprog, e *cexec) bool {
 	for ti, th := range p.threads {
 		for ci, c := range th {
 			if c.op != "removeall" {
 				continue
 			}
-			w := 0
+			// W locks of the call, in order
+			var ws []int
 			for _, a := range e.s.Threads[ti].Traces[ci] {
 				if a.Write {
-					w++
+					ws = append(ws, a.Lock)
 				}
 			}
-			if w >= 4 {
+			// ws = parent, target, <entries...>, target(delete).  A directory d appears as  d ... d ; the locks
+			// strictly inside at nesting depth 1 are its entries.
+			if len(ws) < 3 {
+				continue
+			}
+			if countEntries(ws[1:], e.w.isDir) {
 				return true
+			}
+		}
+	}
+	return false
+}
+
+// countEntries parses  d (entry)* d  recursively and reports whether some directory has >= 2 entries.
+func countEntries(ws []int, dir map[int]bool) bool {
+	amb := false
+	var parse func(i int) int
+	parse = func(i int) int { // ws[i] opens a node; returns the index after its closing occurrence
+		d := ws[i]
+		j := i + 1
+		n := 0
+		for j < len(ws) && ws[j] != d {
+			// an entry: either  f  (a file: one lock) or  c ... c c  (a directory: enter, entries, delete)
+			k := j + 1
+			isDir := dir[ws[j]]
+			if isDir {
+				k = parse(j) // returns after the matching unlock-side occurrence ... the delete lock follows
+				if k < len(ws) && ws[k] == ws[j] {
+					k++
+				}
+			}
+			n++
+			j = k
+		}
+		if n >= 2 {
+			amb = true
+		}
+		return j
+	}
+	parse(0)
+	return amb
+}
+
+// tempDuplicate: CreateTemp/MkdirTemp returned one name to two callers.
+func tempDuplicate(p cprog, e *cexec) bool {
+	seen := map[string]bool{}
+	for ti, th := range p.threads {
+		for ci, c := range th {
+			r := e.s.Threads[ti].Results[ci]
+			if (c.op == "createtemp" || c.op == "mkdirtemp") && strings.HasPrefix(r, "ok:") {
+				if seen[r] {
+					return true
+				}
+				seen[r] = true
 			}
 		}
 	}
@@ -890,6 +951,8 @@ func runConc(cfg config) {
 				cr.note("deadlock", p, e, nil)
 			} else if strings.Contains(e.resultsText(), "panic") {
 				cr.note("panic", p, e, nil)
+			} else if tempDuplicate(p, e) {
+				cr.note("tempdup", p, e, nil)
 			} else if linearization(e, seqs) == nil {
 				cr.note("nonlin", p, e, seqs)
 			}
